@@ -37,6 +37,7 @@ ModelKind(h) ==
     [] h \in {"read", "received_reset"}  -> "read"        \* both wait in `readable` (own stream each)
     [] h \in {"accepted_0rtt_a", "accepted_0rtt_b"} -> "accepted_0rtt"
     [] h \in {"closed", "closed_b"}      -> "closed"
+    [] h = "recv_datagram_b"             -> "recv_datagram"   \* a second task parked in recv_datagram
     [] OTHER -> h
 ToSet(q) == {q[i] : i \in 1..Len(q)}
 
@@ -45,7 +46,7 @@ gwvars == <<Scenario, ck, blocked, out, phase>>
 
 KindsFor(c) ==
   CASE Scenario = "conn" -> (IF c = "endpoint" THEN ConnKinds \o EpKinds ELSE ConnKinds)
-    [] Scenario = "mix"  -> (<<"open_uni", "accept_bi", "read", "write", "closed">>
+    [] Scenario = "mix"  -> (<<"open_uni", "accept_bi", "read", "recv_datagram", "recv_datagram_b", "closed">>
                               \o (IF c = "endpoint" THEN EpKinds ELSE <<>>))
     [] Scenario = "zrtt" -> ZrttKinds
     [] Scenario = "drop" -> <<"accept_uni", "read", "write">>
